@@ -458,6 +458,14 @@ def find_reference_citations_from_markup(
             end_in_plain = document.markup_to_plain.update(
                 start_in_markup + match.end(1), bisect_right
             )
+            # the diff behind the SpanUpdaters may align the name with equal
+            # characters elsewhere in the markup (e.g. in tag attributes): a
+            # translated span that lost the name can't be trusted
+            name_in_plain = document.plain_text[start_in_plain:end_in_plain]
+            if "".join(match.group(1).split()) not in "".join(
+                name_in_plain.split()
+            ):
+                continue
             reference = ReferenceCitation(
                 token=CaseReferenceToken(
                     data=document.plain_text[start_in_plain:end_in_plain],
